@@ -33,6 +33,9 @@ func SameObject(a, b any) bool       { return false }
 func JSONInput(tag string) []byte    { return nil }
 func Unsupported(why string)         {}
 
+// Concrete reports whether b is known without asking the solver (always true natively).
+func Concrete(b bool) bool { return true }
+
 // Lazy returns a pointer whose target is produced by gen(s) when the cell holding it is first loaded.
 func Lazy[T, S any](gen func(*S) *T, s *S) *T { return nil }
 
